@@ -359,6 +359,20 @@ def cases(tier):
         yield {"k": "practice", "name": name}
 
 
+def ambiguous_start(text):
+    """a line whose first token is '^...', '(' or '-' continues the previous line's expression (by design of the grammar);
+    combinations of rewrites that create such a line are not generated"""
+    prev_open = False
+    for ln in text.split("\n"):
+        st = ln.strip()
+        if st[:1] in ("^", "(", "-") and prev_open:
+            return True
+        code = st.split(";")[0].strip()
+        if code:
+            prev_open = not code.endswith((":", "{", "}"))
+    return False
+
+
 def outcome_key(o):
     return (o.status, o.base, o.code, tuple(o.error_kinds()))
 
@@ -424,6 +438,8 @@ def check(case, r, tier):
                     continue
                 hi, lo = (a, b) if a[1] > b[1] else (b, a)
                 new = render(apply(apply(toks, hi), lo))
+                if ambiguous_start(new) and not ambiguous_start(text):
+                    continue
                 compare(r, base, new, new, {"k": "text", "base": text, "text": new, "fam": "%s+%s" % (lo[0], hi[0]), "ctx": ctxj}, "%s+%s" % (lo[0], hi[0]))
         else:
             fams = FAMILIES if tier == "thorough" else FAMILIES[:3] + ["case-symbol+case-radix", "radix", "ws+comment", "group", "register+synonym+legacy-deferred"]
